@@ -153,8 +153,10 @@ theorem remove_spec (a : Arr) (index : Nat) (h : Wf a) (hi : index < a.count) :
     rw [if_pos hi, hcm1]
     have : index + 1 + (c - index) ≤ a.buf.length := by omega
     rw [if_pos this]
-    show (store (front ++ a.buf.drop c) c none).map _ = _
-    rw [hstore]; rfl
+    have hrv : StepModel.Generated.removeNullsVacated = true := rfl
+    show (if StepModel.Generated.removeNullsVacated = true then store (front ++ a.buf.drop c) c none
+          else some (front ++ a.buf.drop c)).map _ = _
+    rw [if_pos hrv, hstore]; rfl
   have hview : view ⟨front ++ none :: a.buf.drop (c + 1), c⟩ = front := by
     show (front ++ none :: a.buf.drop (c + 1)).take c = front
     exact List.take_left' hfl
@@ -179,25 +181,64 @@ theorem remove_spec (a : Arr) (index : Nat) (h : Wf a) (hi : index < a.count) :
       rw [← hc1]; exact h1
   · rw [hview, hfront]
 
-/-! ### `ClearEntries` -/
-theorem clear_spec (a : Arr) (h : Wf a) : Wf (clear a) ∧ view (clear a) = [] := by
+/-! ### `ClearEntries` / `DeleteEntries` -/
+theorem dropAll_spec (a : Arr) (h : Wf a) : Wf (dropAll true a) ∧ view (dropAll true a) = [] := by
   refine ⟨⟨Nat.zero_le _, ?_, ?_⟩, rfl⟩
-  · intro x hx; simp [clear] at hx
+  · intro x hx; simp [dropAll] at hx
   · intro x hx
-    have hx' : x ∈ List.replicate a.count none ++ a.buf.drop a.count := by simpa [clear] using hx
+    have hx' : x ∈ List.replicate a.count none ++ a.buf.drop a.count := by simpa [dropAll] using hx
     rcases List.mem_append.mp hx' with h1 | h1
     · exact (List.mem_replicate.mp h1).2
     · exact h.rest x h1
 
+theorem clear_spec (a : Arr) (h : Wf a) : Wf (clear a) ∧ view (clear a) = [] := by
+  have hf : StepModel.Generated.clearEntriesNullsSlots = true := rfl
+  unfold clear; rw [hf]; exact dropAll_spec a h
+
+/-- needs `DeleteEntries` to null the slots it frees (regenerated from the source; `rfl` fails otherwise) -/
+theorem deleteEntries_spec (a : Arr) (h : Wf a) : Wf (deleteEntries a) ∧ view (deleteEntries a) = [] := by
+  have hf : StepModel.Generated.deleteEntriesNullsSlots = true := rfl
+  unfold deleteEntries; rw [hf]; exact dropAll_spec a h
+
+/-- what a loop that does NOT null the slots leaves behind: the freed pointers, above a zero count -/
+theorem dropAll_false_dangling (a : Arr) (i : Nat) (p : Nat) (hi : i < a.count) (hp : a.buf[i]? = some (some p)) :
+    (dropAll false a).count = 0 ∧ slotAt (dropAll false a) i = some p := by
+  have _ := hi
+  refine ⟨rfl, ?_⟩
+  have hlen : i < a.buf.length := by
+    rcases List.getElem?_eq_some_iff.mp hp with ⟨h, _⟩; exact h
+  unfold slotAt check
+  have : ¬ (i ≥ (dropAll false a).buf.length) := by simp [dropAll]; exact hlen
+  rw [if_neg this]
+  simp [dropAll, hp]
+
+/-! ### `operator[]` -/
+theorem slotAt_above (a : Arr) (i : Nat) (h : Wf a) (hi : a.count ≤ i) : slotAt a i = none := by
+  obtain ⟨hw, _, hc, hlen⟩ := check_spec a i h
+  unfold slotAt
+  have hmem : (check a i).buf[i]'hlen ∈ (check a i).buf.drop (check a i).count := by
+    rw [hc]
+    rw [List.mem_drop_iff_getElem]
+    exact ⟨i - a.count, by rw [hc] at *; omega, by congr 1; omega⟩
+  have := hw.rest _ hmem
+  rw [List.getElem?_eq_getElem hlen, this]; rfl
+
+theorem slotAt_below (a : Arr) (i : Nat) (h : Wf a) (hi : i < a.count) : slotAt a i = ((view a)[i]?).join := by
+  obtain ⟨_, hv, hc, hlen⟩ := check_spec a i h
+  unfold slotAt
+  rw [← hv]
+  simp only [view, hc]
+  rw [List.getElem?_take_of_lt hi]
 
 /-! ### any sequence of array operations -/
-inductive BufOp | push (gn : Nat) | remove (i : Nat) | clear
+inductive BufOp | push (gn : Nat) | remove (i : Nat) | clear | deleteAll
   deriving Repr
 
 def stepBuf (a : Arr) : BufOp → Option Arr
   | .push gn => insertAtEnd a gn
   | .remove i => remove a i
   | .clear => some (GenNodeArray.clear a)
+  | .deleteAll => some (deleteEntries a)
 
 def runBuf (a : Arr) : List BufOp → Option Arr
   | [] => some a
@@ -208,6 +249,7 @@ def stepList (l : List (Option Nat)) : BufOp → List (Option Nat)
   | .push gn => l ++ [some gn]
   | .remove i => l.eraseIdx i
   | .clear => []
+  | .deleteAll => []
 
 theorem step_spec (a : Arr) (op : BufOp) (h : Wf a) :
     ∃ a', stepBuf a op = some a' ∧ Wf a' ∧ view a' = stepList (view a) op := by
@@ -226,6 +268,9 @@ theorem step_spec (a : Arr) (op : BufOp) (h : Wf a) :
         simp only [view, List.length_take]; omega
   | clear =>
     obtain ⟨h1, h2⟩ := clear_spec a h
+    exact ⟨_, rfl, h1, h2⟩
+  | deleteAll =>
+    obtain ⟨h1, h2⟩ := deleteEntries_spec a h
     exact ⟨_, rfl, h1, h2⟩
 
 theorem run_spec (a : Arr) (ops : List BufOp) (h : Wf a) :
